@@ -22,6 +22,10 @@ type workCase struct {
 	Succ    [][]int `json:"succ"`   // successors added while processing item i
 	Yields  []int   `json:"yields"` // explicit yields inside f(i), before the Adds
 	After   []int   `json:"after,omitempty"` // explicit yields inside f(i) after its Adds (f is still in progress then)
+	// WaitFor[i]: after its Adds, f(i) blocks until each listed item has started (calls of f that depend on other items
+	// being picked up). Honoured only when n >= number of reachable items and every listed item is an initial item or a
+	// successor of i (then a correct Work always has an idle runner for an unstarted item, so the wait ends).
+	WaitFor [][]int `json:"wait_for,omitempty"`
 	Mode    string  `json:"mode"`   // seq | pct
 	// Items optionally gives the value used for item i: "" or "int" = the int i, "nil" = a nil item,
 	// "string" = a string, "struct" = a comparable struct (all valid map keys).
@@ -47,7 +51,7 @@ func (c workCase) strategy() sched.Strategy {
 }
 
 func valid(c workCase) bool {
-	if c.N < 1 || c.N > 8 || len(c.Succ) == 0 || len(c.Yields) != len(c.Succ) {
+	if c.N < 1 || c.N > 12 || len(c.Succ) == 0 || len(c.Yields) != len(c.Succ) {
 		return false
 	}
 	nils := 0
@@ -132,6 +136,25 @@ func run(c workCase, strat sched.Strategy, trace bool) outcome {
 	for _, i := range c.Initial {
 		walk(i)
 	}
+	var startWaiters []*sched.Task
+	waitsOK := c.N >= len(closure)
+	for i, ws := range c.WaitFor {
+		for _, j := range ws {
+			ok := i < len(c.Succ) && j >= 0 && j < len(c.Succ) && j != i
+			if ok {
+				ok = false
+				for _, x := range c.Initial {
+					ok = ok || x == j
+				}
+				for _, x := range c.Succ[i] {
+					ok = ok || x == j
+				}
+			}
+			if !ok {
+				waitsOK = false
+			}
+		}
+	}
 	res := sched.Run(strat, sched.Options{MaxSteps: 20000, KeepTrace: trace}, func() {
 		var w par.Work
 		for _, i := range c.Initial {
@@ -149,6 +172,10 @@ func run(c workCase, strat sched.Strategy, trace bool) outcome {
 				bad = vt.Failf("f-called-after-do-returned", "f(%d) called after Do returned", i)
 			}
 			count[i]++
+			for _, t := range startWaiters {
+				sched.Wake(t)
+			}
+			startWaiters = nil
 			inflight++
 			if inflight > maxInflight {
 				maxInflight = inflight
@@ -167,6 +194,14 @@ func run(c workCase, strat sched.Strategy, trace bool) outcome {
 			if i < len(c.After) {
 				for k := 0; k < c.After[i]; k++ {
 					sched.Yield()
+				}
+			}
+			if waitsOK && i < len(c.WaitFor) {
+				for _, j := range c.WaitFor[i] {
+					for count[j] == 0 {
+						startWaiters = append(startWaiters, sched.Cur())
+						sched.Block("wait until another item has started")
+					}
 				}
 			}
 			inflight--
@@ -269,6 +304,21 @@ func genGraph(t *rapid.T, c *workCase) {
 		c.Yields = append(c.Yields, rapid.IntRange(0, 3).Draw(t, "yields"))
 		c.After = append(c.After, rapid.IntRange(0, 2).Draw(t, "after"))
 	}
+	if rapid.IntRange(0, 3).Draw(t, "dependent") == 2 {
+		// calls of f that wait for other items to have started; needs a runner per item
+		if c.N < items {
+			c.N = items
+		}
+		for i := 0; i < items; i++ {
+			var ws []int
+			for _, j := range append(append([]int{}, c.Succ[i]...), c.Initial...) {
+				if j != i && rapid.IntRange(0, 2).Draw(t, "waitfor") == 1 {
+					ws = append(ws, j)
+				}
+			}
+			c.WaitFor = append(c.WaitFor, ws)
+		}
+	}
 	if rapid.IntRange(0, 2).Draw(t, "typed") == 0 {
 		nilAt := -1
 		if rapid.Bool().Draw(t, "hasnil") {
@@ -332,6 +382,7 @@ var smallGraphs = []workCase{
 	{Initial: []int{0}, Succ: [][]int{{1, 2}, {3}, {3}, {}}},                                    // diamond
 	{Initial: []int{0}, Succ: [][]int{{1}, {}}, Items: []string{"nil", "string"}},               // a nil item first
 	{Initial: []int{0}, Succ: [][]int{{1, 2}, {}, {}}, Items: []string{"struct", "nil", "int"}}, // a nil item added from inside f
+	{Initial: []int{0}, Succ: [][]int{{1, 2}, {}, {}}, WaitFor: [][]int{{1, 2}, {2}, {1}}},      // f(0) adds two items in a burst; all three calls rendezvous (n=3 only)
 	{Initial: []int{0, 1, 2}, Succ: [][]int{{3}, {4}, {}, {}, {}}},                              // as many queued items as runners, the first calls add more
 	{Initial: []int{0, 1, 2, 3}, Succ: [][]int{{4}, {}, {}, {}, {}}},                            // more queued items than runners
 }
